@@ -94,7 +94,7 @@ META = {
     "C04": {
         "level": "exploration",
         "evaluations": ["recordings", "example_pairs", "check_pairs", "history_pairs"],
-        "required": ["recordings", "example_pairs", "check_pairs", "history_pairs", "long_repeat_programs", "prune_replays_with_removed_bits", "recordings_with_rejected_attempts", "digest_keys_seen_in_2_processes", "abuse_histories", "abuse_draws_that_gave_up"],
+        "required": ["recordings", "example_pairs", "check_pairs", "history_pairs", "long_repeat_programs", "prune_replays_with_removed_bits", "recordings_with_rejected_attempts", "digest_keys_seen_in_2_processes", "abuse_histories", "abuse_draws_that_gave_up", "fuzz_histories"],
         "show": ["recordings", "prune_replays_judged", "prune_replays_with_removed_bits", "example_pairs", "check_pairs", "digest_keys_seen_in_2_processes"],
         "rule": "rejection-heavy random programs x 20 seeds each: record (recording PRNG stream) -> same seed again -> replay as recorded -> "
                 "prune (real prune() vs reference prune) -> replay pruned, comparing draws and verdict; Example(seed) pairs; whole Checks with a "
@@ -123,7 +123,7 @@ META = {
     "C09": {
         "level": "exploration",
         "evaluations": ["checks_run"],
-        "required": ["verdict_pass", "verdict_only_generated", "family:failfiles", "family:failing", "family:realT", "family:flaky-failfile", "deadline_all_skipped", "realT_count_runs"],
+        "required": ["verdict_pass", "verdict_only_generated", "family:failfiles", "family:failing", "family:realT", "family:flaky-failfile", "deadline_all_skipped", "realT_count_runs", "planted_fail_files_that_are_symlinks"],
         "show": ["checks_run", "verdict_pass", "verdict_only_generated", "invocations"],
         "rule": "never-failing properties with skip pattern sigma in {never, always, every j-th, data-dependent 5-95%, 9 of 10} x -rapid.checks N in "
                 "{1,2,3,5,17,100,1000}: count completed/skipped invocations by stream kind against TB verdict (exactly N completed then stop, or "
@@ -138,7 +138,7 @@ META = {
     "C11": {
         "level": "exploration",
         "evaluations": ["checks_run"],
-        "required": ["runs_with_failure", "family:forced", "family:random", "verbose_runs", "family:deep-abandon", "deep_abandoned_cases"],
+        "required": ["runs_with_failure", "family:forced", "family:random", "verbose_runs", "family:deep-abandon", "deep_abandoned_cases", "family:shared-skip-site"],
         "show": ["checks_run", "runs_with_failure", "cases", "verbose_runs"],
         "rule": "per-case behaviour is a function of the case's first draw: all 4^3 orders of {Errorf, Skip, cleanup-time Errorf, pass} and all ordered "
                 "pairs of 14 behaviours (incl. Skip from a cleanup, cleanups registering cleanups) are forced onto consecutive cases (dry run with the same seed yields each case's first draw), plus random "
@@ -203,7 +203,7 @@ META = {
     "C06": {
         "level": "exploration",
         "evaluations": ["histories"],
-        "required": ["histories", "run2:auto", "run2:flag", "comment_lines", "two_check_histories"],
+        "required": ["histories", "run2:auto", "run2:flag", "comment_lines", "two_check_histories", "upgrade_histories_replayed", "histories_with_symlinked_fail_file"],
         "show": ["histories", "run2:auto", "run2:flag", "comment_lines", "max:fail_file_bytes"],
         "rule": "two/three-run histories in a scratch working directory: run 1 fails with fail files on (24 hostile test names: unicode, path "
                 "separators, '..', glob metacharacters, invalid UTF-8, NUL, Windows reserved names, up to 180 bytes; 11 output classes: none, text, "
@@ -335,7 +335,7 @@ META = {
         "level": "exploration",
         "race": True,
         "evaluations": ["rounds"],
-        "required": ["rounds", "concurrent_checks", "draws_compared", "canary_race_reports", "ctor:Deferred", "ctor:Custom", "ctor:StringMatching", "ctor:Filter"],
+        "required": ["rounds", "concurrent_checks", "draws_compared", "canary_race_reports", "ctor:Deferred", "ctor:Custom", "ctor:StringMatching", "ctor:Filter", "fuzz_target_rounds", "failing_together_rounds"],
         "show": ["rounds", "concurrent_checks", "draws_compared", "race_reports_distinct", "canary_race_reports"],
         "rule": "binary built with -race; every round builds a FRESH random generator tree (biased to lazily initialised nodes: Deferred, recursive trees, "
                 "Custom, Filter, Make, regexp generators with a per-round unique pattern) and releases 8-16 concurrent Checks (own TB each, same -rapid.seed) "
@@ -429,8 +429,13 @@ _MORE9 = {
 _MORE10 = {
     "C02": "Variant then-more-draws: after a non-fatal failure the callback goes on drawing, also values of other Custom generators, through the T it signalled on and through the enclosing T.",
     "C03": "Family long: typed generators of long values (67 to 5000 bytes / elements: byte slices, regexp byte slices and strings, strings, integer slices, maps) drawn with the draw log on and off (MakeFuzz, Check with and without -rapid.v, the final replay of a failing Check); every value is checked when returned and again when the test case ends.",
-    "C04": "Family abuse-history: ONE generator instance (6-16 nested combinators of every kind over an often-rejecting leaf) records 24 seeds, then 2500 other seeds (a third of the draws give up and unwind through all frames) and 200 truncated replays, then the 24 seeds again: same values, same bits, same replays.",
-    "C11": "Family deep-abandon: a 600-case Check in which every second test case is abandoned 8-16 generator levels deep; the property never signals a failure and must pass.",
+    "C04": "Family fuzz-history: one MakeFuzz target is fed 40 inputs in a row (recordings cut short, extended, with hostile words); each input must end and draw as on a fresh target. Family abuse-history: ONE generator instance (6-16 nested combinators of every kind over an often-rejecting leaf) records 24 seeds, then 2500 other seeds (a third of the draws give up and unwind through all frames) and 200 truncated replays, then the 24 seeds again: same values, same bits, same replays.",
+    "C06": "A tenth of the histories reach the fail file through a symbolic link (the file is moved into a store before the next run); a fifth are 'upgrade' histories: after the replays the saved file is turned into another version's, the test fails again with the flags of run 1 - that failure must be persisted afresh (exactly one file of the current version, named in the message, holding the minimised case) and replayed first by the run after it.",
+    "C09": "A third of the planted fail files are symbolic links into a store.",
+    "C12": "Two more ways of failing: a panic with a freshly allocated wrapped error and with a pointer to a struct holding further pointers (same text in every execution, other addresses).",
+    "C15": "Family fuzz-target: ONE function returned by MakeFuzz is called from 6-15 parallel sub-tests at once, each with its own input (a recording made alone on an equal tree); status and draws of every call are those of a replay of its input. Family failing-together: 3-7 FAILING checks (a threshold each) at once over one shared generator on same-named test objects; each executes exactly the test cases (search, reproduction, every minimisation attempt, final replay) it executes alone.",
+    "C17": "The descriptor-limited child plants 800 unusable entries (empty files, directories, binary files starting with control bytes, text) in front of the usable one and its property opens files of its own. In the explicit families a problem with a fail file must never be an ERROR of the test.",
+    "C11": "Family shared-skip-site: non-fatal failure when a > ta, then ONE Skip statement reached when b > tb by failing and non-failing cases alike; the test case presented after minimisation must be one that signalled (C01 oracle). Family deep-abandon: a 600-case Check in which every second test case is abandoned 8-16 generator levels deep; the property never signals a failure and must pass.",
     "C13": "One input in seven is TEXT (the text of a well-formed fail file of this version holding a recording of the same property, a go fuzz corpus header, hex lines, JSON): bytes like any others.",
     "C16": "Family fault: one file-system call of the save (mkdirat, openat, write, close, renameat, unlinkat; first and last call of every name in the quick tier, every call in the thorough tier) is made to FAIL (ENOSPC, EIO, EDQUOT, EACCES, EMFILE, EXDEV, EBUSY, EROFS by strace error injection); the faulted run is judged by the same trace and directory oracles, and the process is then killed at every later file-system call (of another name - strace keeps one injection per call name) of the error path the library takes. A third of the crash scenarios let minimisation run to its end first (the crash window is the whole failing Check, not only the save). Family explicit: the failing run was started with -rapid.failfile naming a file that is missing or a complete fail file that no longer reproduces (inside or outside the test's directory): that path is picked up by the next run with the same command line, so it must never be opened for writing and must hold what it held before, or a complete save, at every crash point.",
 }
